@@ -9,18 +9,83 @@ HERE = os.path.dirname(os.path.dirname(os.path.realpath(__file__)))
 CHECKS = {}
 
 
-def add(pid, technique, text, note, engine="hypothesis+enumeration"):
-    CHECKS[pid] = dict(technique=technique, text=text, note=note, engine=engine)
+
+def add(pid, technique, text, note, engine="hypothesis+enumeration", ready=True):
+    CHECKS[pid] = dict(technique=technique, text=text, note=note, engine=engine, ready=ready)
 
 
-add("C12",
-    "bounded exhaustive enumeration + Hypothesis-generated big integers against a reference quantiser table",
-    "Exploration: every qindex 0..255 (1023 thorough) x a dense window of coefficients around each multiple of the "
-    "quantisation step is enumerated, unbounded integers to 2^200 are generated, and both monotonicity claims are "
-    "enumerated to index 2047 (8191). An arithmetic slip in quantise/dequantise/factor/offset shows up within the window; "
-    "the property is over all integers so this is evidence, not proof.",
-    "Trusts the harness' transcription of the four rational constants of ST 2042-1 13.3.2 (cross-checked against the code) "
-    "and Python integer arithmetic.")
+add("C01", "model-based testing: generated data-unit histories vs a from-scratch stream-structure model (differential verdict)",
+    "Exploration: ~16k (quick) / ~1.9M (thorough) abstract histories (valid skeleton + 0-2 injected defects, or random orderings) over "
+    "profiles, coding modes, versions 1-4, levels 0/1-7/64-66, offsets correct/zero/wrong, picture-number patterns and fragment shapes are "
+    "assembled from individually valid unit blobs and the validator's accept/reject verdict must equal an independent model's; any "
+    "non-ConformanceError is a violation. Both verdict directions are checked, so a rule that is dropped, weakened or over-strict shows up.",
+    "Trusts the harness' stream model (oracles/stream_model.py, hand-translated level patterns) and a permissive level-constraint column "
+    "appended in-process; unit blobs come from the encoder of the tree under test (C03 judges them).")
+add("C02", "mutation fuzzing (byte-, bit-field-, field- and unit-level) of valid streams with exception bucketing",
+    "Exploration: ~30k (quick) / ~2.9M (thorough) byte strings derived from 25 valid streams by stacked byte mutations, field-aware bit "
+    "splices, description-level field/unit mutations and random data are run through init_io+parse_stream; outcome must be accept, "
+    "ConformanceError (whose explain/str/offending_offset/viewer-hint must work) or out-of-scope; crashes are bucketed by root cause.",
+    "Size guard (per-field bounds) excludes streams declaring huge pictures; coverage-guided fuzzing (atheris) was not wired in: structure-aware mutation reached the crash classes blind mutation missed (DESIGN 1).")
+add("C03", "generated configurations: encode -> serialise -> validate round trip with format oracle",
+    "Exploration: ~3k (quick) / ~380k (thorough) valid configurations constructed by Hypothesis x 1-3 pictures x numbering choice; the "
+    "validator must accept and return the configured 20 video parameters, coding mode, picture count, order and numbers.",
+    "Valid-by-construction configurations only (DESIGN 7.1); lossy budgets with no representable qindex are out of domain (harness size model).")
+add("C04", "generated configurations: encode -> decode exactness oracle (round trip)",
+    "Exploration: lossless and big-budget lossy configurations (~3k quick / ~380k thorough) with extreme/noise/constant pictures; decoded "
+    "samples must equal the input whenever every slice has qindex 0.",
+    "qindex values are read from the encoder's own description.")
+add("C05", "generated configurations: run all decoder test-case generators; conformance + metamorphic content relations",
+    "Exploration: 48 (quick) / ~3.8k (thorough) regular configurations, every registered generator (~55 test cases per configuration): each "
+    "stream must validate with the configured format, names unique, mid-grey cases exactly mid-grey, numbering cases as documented, "
+    "re-encoded-header cases equal to the plain encoding of the same source.",
+    "16x16 substitute natural pictures; signal_range only for cheap wavelet/depth classes; D7 is a listed known finding.")
+add("C06", "round-trip (deserialise -> serialise -> deserialise) over mutated streams",
+    "Exploration: ~15k (quick) / ~1.5M (thorough) mutated/valid/random byte strings; every one the Deserialiser parses to completion must "
+    "re-serialise to identical bytes and re-deserialise to an equal description.",
+    "Only completed parses are judged; size guard on the (de)serialiser's slice loops.")
+add("C07", "generated descriptions with explicit/AUTO/omitted fields vs an autofill reference model",
+    "Exploration: ~8k (quick) / ~770k (thorough) stream descriptions; output bytes are deserialised and every explicit value, default, AUTO "
+    "offset, AUTO picture number, AUTO major_version (harness' own version table) and extended-transform-parameter removal is compared with the model.",
+    "Output positions come from the repository's Deserialiser; defaults from vc2_default_values.")
+add("C08", "differential: validator's decoded transform data vs harness model fed by the Deserialiser's description",
+    "Exploration: ~2.5k (quick) / ~290k (thorough) conformant streams incl. re-packed extreme/dangling payloads; header values, parameters, "
+    "matrices and every dequantised, DC-predicted coefficient must agree between the two parsers.",
+    "Validator state captured by rebinding decoder.stream.picture_decode in-process; harness has its own geometry/dequantiser.")
+add("C09", "generated accepted streams with extreme payloads; validity predicate on every output picture",
+    "Exploration: ~2.5k (quick) / ~290k (thorough) accepted streams weighted to extreme coefficients/qindex; every output picture must have "
+    "the exact dimensions, int samples within depth, coded picture number and there must be one picture per (completed) picture.",
+    "Dimensions/depths recomputed by the harness from the deserialised header.")
+add("C10", "metamorphic: concatenation of member streams vs members alone",
+    "Exploration: ~3k (quick) / ~300k (thorough) lists of 1-5 member streams (corpus, random configurations, at most one non-conformant delimited "
+    "member); verdict and output pictures of the concatenation must equal the composition of the members' own.",
+    "Member verdicts are the validator's own on each member alone.")
+add("C11", "exhaustive filter-pair x depth enumeration + generated pictures; transform round trip and subband-shape model",
+    "Exploration: all 49 filter pairs x 25 depth pairs with several pictures each plus Hypothesis-drawn sizes/contents up to +-2^200; "
+    "pad+dwt+idwt+unpad must be the identity and subband shapes must match the slice geometry and the harness model.",
+    "Harness subband model in oracles/slice_geometry.py; padding sample values are not examined.")
+add("C12", "bounded exhaustive enumeration + Hypothesis-generated big integers against a reference quantiser table",
+    "Exploration: every qindex 0..255 (1023 thorough) x a dense window of coefficients around each multiple of the quantisation step is "
+    "enumerated, unbounded integers to 2^200 are generated, and both monotonicity claims are enumerated to index 2047 (8191).",
+    "Trusts the harness' transcription of the four rational constants of ST 2042-1 13.3.2 and Python integer arithmetic.")
+add("C13", "exhaustive box enumeration + generated large values against an interval-arithmetic model",
+    "Exploration: exhaustive 1-D box (size 1-96, depths 0-4, slices 1-100, every level; larger in thorough), drawn sizes to 2^40, 2-D states for "
+    "the same-dimensions flag, slice_bytes exhaustive small box + values to 2^200: tiling, subband sizes, flag and byte sums checked against the harness model.",
+    "Model in oracles/slice_geometry.py; flag read as 'identical (w,h) in every component and level'.")
+add("C14", "generated lossy configurations vs a reference size model (minimal-qindex and budget oracle)",
+    "Exploration: ~2k (quick) / ~200k (thorough) lossy LD/HQ cases with minimum_qindex / scaler overrides; per slice: fits at q, not at q-1, "
+    "q >= minimum, coefficients equal harness quantisation, field widths, budgets, measured slice-region sizes, stream validates.",
+    "Unquantised coefficients from transform_and_slice_picture; offsets measured with MonitoredDeserialiser.")
+add("C24", "generated schedules of real worker processes (orders, batches, hash seeds) vs serial run; disjoint-write-set invariant",
+    "Exploration: 4 (quick) / 128 (thorough) (configuration set, schedule) cases; output trees (path -> SHA-256) of the scheduled concurrent "
+    "worker processes, of two serial runs under different PYTHONHASHSEED and of a one-at-a-time replay must be identical and write sets disjoint.",
+    "Order, batching and hash seeds are generated; OS-level interleaving inside a batch is not controlled (disjoint write sets are the argument for arbitrary interleavings).")
+add("C25", "mutated/valid streams through the validator CLI in-process vs direct decoder run",
+    "Exploration: ~3k (quick) / ~380k (thorough) files x output patterns x flags: exit status, located explanation sections, and the written "
+    "raw/json pairs (count, numbering, content via file_format.read) must match a direct parse_stream of the same bytes; never status 3.",
+    "Reference verdict is the repository's own parse_stream.")
+add("C26", "mutation fuzzing of the viewer CLI in-process with drawn display options",
+    "Exploration: ~8k (quick) / ~770k (thorough) byte strings x option sets; exit status must be in {0,2,3,4}, never 255 or an escaping exception.",
+    "Size guard trips on transform_data/fragment_data of the (de)serialiser.")
 
 ALL = ["C%02d" % i for i in range(1, 29)]
 
@@ -28,7 +93,7 @@ ALL = ["C%02d" % i for i in range(1, 29)]
 def main():
     checks = []
     for pid in ALL:
-        if pid not in CHECKS:
+        if pid not in CHECKS or not CHECKS[pid].get("ready", True):
             continue
         c = CHECKS[pid]
         checks.append(dict(
@@ -43,7 +108,7 @@ def main():
             technique=c["technique"],
         ))
     na = [dict(property_id=p, reason="check not built yet in this phase (planned in DESIGN.md section 4); not claimed until its check exists and is quiet on the unchanged tree")
-          for p in ALL if p not in CHECKS]
+          for p in ALL if p not in CHECKS or not CHECKS[p].get("ready", True)]
     m = dict(
         version=1,
         setup_cmd="/venv/bin/python -c 'import hypothesis' 2>/dev/null || /venv/bin/pip install --no-index --find-links /opt/veriftools/wheels --target /verif/.deps hypothesis",
@@ -55,7 +120,7 @@ def main():
             add_only=True,
         ),
         engines=[
-            dict(name="vpbt", path="vpbt/", serves_properties=sorted(CHECKS),
+            dict(name="vpbt", path="vpbt/", serves_properties=sorted(p for p in CHECKS if CHECKS[p].get("ready", True)),
                  kind_free_text="property-based testing harness: Hypothesis strategies/state machines, exhaustive enumeration of finite boxes, sharded over 16 processes, explicit oracles, bucketed failures, replay files"),
         ],
         checks=checks,
